@@ -24,6 +24,10 @@ fn period(rng: &mut Rng) -> usize {
     }
 }
 fn variant(kind: Kind, rng: &mut Rng) -> Params {
+    // one draw in twelve is the documented default configuration (which the wrapper builds through Default::default())
+    if rng.below(12) == 0 {
+        return kind.default_params();
+    }
     let mut p = Params::new1(kind, period(rng));
     match kind {
         Kind::Macd | Kind::Ppo => p.p = [period(rng), period(rng), period(rng).min(50)],
